@@ -74,7 +74,7 @@ namespace Zrnt.Proofs.C01
 open Zrnt Zrnt.Beacon Zrnt.Beacon.Spec Zrnt.Beacon.BlockImpl Zrnt.Proofs.BeaconBlock
 open Zrnt.Beacon.BlockM (Ctx processHeader processRandaoReveal processEth1Vote processBLSToExecutionChange processExecutionPayload processVoluntaryExit processDeposit
   processAttestationPhase0 processAttestationAltair slashValidator processProposerSlashing processAttesterSlashing processBlock postSlotTransition)
-open Zrnt.Proofs.BlockM (RegU64 ExitSmall PubkeyOK SameDuties SlashSmall SlashInv OpSteps Sim Refines Safe NoOps SameCommittees OnlyExits ExitInv P0Inv P0Const SlashExitBlock AttInv OnlyAttestations P0AInv P0AConst Phase0NoDeposits P0DInv P0DConst Phase0Block AltInv AltConst AltExtra AltairBlock)
+open Zrnt.Proofs.BlockM (RegU64 ExitSmall PubkeyOK SameDuties SlashSmall SlashInv OpSteps Sim Refines Safe NoOps SameCommittees OnlyExits ExitInv P0Inv P0Const SlashExitBlock AttInv OnlyAttestations P0AInv P0AConst Phase0NoDeposits P0DInv P0DConst Phase0Block AltInv AltConst AltExtra AltairBlock BellatrixBlock)
 
 /-- (a) `common.ValidatorSet.ZigZagJoin`, called on two strictly increasing index lists (what
 `ValidateIndexedAttestation` has established), calls `onIn` with exactly the spec's
@@ -715,6 +715,27 @@ theorem M_block_refines_S_altair (cfg : Config) (S0 : State) (p Bm C T k : Nat) 
     (∀ post, Block.state_transition_post_slots cfg S0 block = .ok post → postSlotTransition cfg ctx S0 block = .ok post) :=
   ⟨(BlockM.processBlock_altair cfg S0 p Bm C T k committee K KA KD KL hF ctx block hb hi htyped).1.1.1,
    (BlockM.postSlot_altair cfg S0 p Bm C T k committee K KA KD KL hF ctx block hb hi htyped r hroot).1.1⟩
+
+/-- `processBlock_bellatrix_eq` — for EVERY bellatrix block (`BellatrixBlock`: as `AltairBlock`, with an execution payload
+whose `extra_data` is inside its type limit; the engine's verdict is an input): a corollary of the altair steps and the
+payload step, which writes the latest payload header only. -/
+theorem processBlock_bellatrix_eq (cfg : Config) (S0 : State) (p Bm C T k : Nat) (committee : SyncCommittee) (K : P0Const cfg S0 Bm C)
+    (KA : P0AConst cfg) (KD : P0DConst cfg Bm) (KL : AltConst cfg S0 Bm T) (hsps : 0 < cfg.SECONDS_PER_SLOT) (hF : S0.fork = .bellatrix) (ctx : Ctx) (block : SignedBlock)
+    (hb : BellatrixBlock cfg Bm block) (hi : AltInv cfg S0 p Bm C T committee (BlockM.blockNeed block k) ctx S0)
+    (htyped : Block.check_types cfg block = .ok ()) :
+    Sim (Block.process_block cfg S0 block) (processBlock cfg ctx S0 block) ∧
+    ∀ st', processBlock cfg ctx S0 block = .ok st' → ∃ ctx', AltInv cfg S0 p Bm C T committee k ctx' st' :=
+  BlockM.processBlock_bellatrix cfg S0 p Bm C T k committee K KA KD KL hsps hF ctx block hb hi htyped
+
+/-- `M_block_refines_S_bellatrix` — C01 for bellatrix WITHOUT the premise `OpSteps`. -/
+theorem M_block_refines_S_bellatrix (cfg : Config) (S0 : State) (p Bm C T k : Nat) (committee : SyncCommittee) (K : P0Const cfg S0 Bm C)
+    (KA : P0AConst cfg) (KD : P0DConst cfg Bm) (KL : AltConst cfg S0 Bm T) (hsps : 0 < cfg.SECONDS_PER_SLOT) (hF : S0.fork = .bellatrix) (ctx : Ctx) (block : SignedBlock)
+    (hb : BellatrixBlock cfg Bm block) (hi : AltInv cfg S0 p Bm C T committee (BlockM.blockNeed block k) ctx S0)
+    (htyped : Block.check_types cfg block = .ok ()) (r : Bytes) (hroot : block.o_post_root = some r) :
+    (∀ post, Block.process_block cfg S0 block = .ok post → processBlock cfg ctx S0 block = .ok post) ∧
+    (∀ post, Block.state_transition_post_slots cfg S0 block = .ok post → postSlotTransition cfg ctx S0 block = .ok post) :=
+  ⟨(BlockM.processBlock_bellatrix cfg S0 p Bm C T k committee K KA KD KL hsps hF ctx block hb hi htyped).1.1.1,
+   (BlockM.postSlot_bellatrix cfg S0 p Bm C T k committee K KA KD KL hsps hF ctx block hb hi htyped r hroot).1.1⟩
 
 /-- non-vacuity of `AltConst`: a small configuration and a total active balance of 64 -/
 def exampleCfgL : Config :=
